@@ -42,6 +42,14 @@ theorem file_equals_sized_iff_bytes (a b : List Nat) (sa sb page : Nat) (hp : 0 
     fileEqualsSized a b sa sb false page allocOk = decide (a = b) :=
   fileEqualsSized_eq a b sa sb page hp allocOk ha hb
 
+/-- The hypothesis of `file_equals_sized_iff_bytes` cannot be dropped: a file that reports a
+non-zero size that is not its length (a sysfs attribute: `st_size` 4096, a few bytes of content)
+compares unequal to an exact copy of itself — the reported sizes differ and neither is zero, so the
+bytes are never looked at.  Recorded as a known finding (GNU `cmp -s` and `diff -q` behave the same
+way); the check replays it on the real /sys file. -/
+theorem file_equals_overreported_size_counterexample :
+    fileEqualsSized [48, 10] [48, 10] 4096 2 false 4096 true = false := by decide
+
 theorem file_equals_symm (a b : Option (List Nat)) (same : Bool) (page : Nat) (hp : 0 < page) (allocOk : Bool) :
     fileEquals a b same page allocOk = fileEquals b a same page allocOk := by
   cases a with
